@@ -204,7 +204,10 @@ class Func:
 
     def calls(self, name=None):
         for n in self.walk():
-            if n["k"] == "call" and (name is None or n.get("fn") == name):
+            if n["k"] != "call":
+                continue
+            if name is None or n.get("fn") == name or (
+                    isinstance(name, (tuple, list, set, frozenset)) and n.get("fn") in name):
                 yield n
 
     def ancestors(self, nid):
